@@ -609,3 +609,197 @@ Proof.
     destruct (task_put_shape p n w st c r wi) as [E|[E|(a & b & E)]]; rewrite E; simpl; intro H;
       try reflexivity; congruence.
 Qed.
+
+(* ------------------------------------------------------------------ *)
+(* Part 4: the policy decision (every caller, every rule assignment)    *)
+
+Lemma eval_equations : forall f pol c t,
+  eval (S f) pol c t CTrue = true /\
+  eval (S f) pol c t CFalse = false /\
+  (forall a b, eval (S f) pol c t (CAnd a b) = eval f pol c t a && eval f pol c t b) /\
+  (forall a b, eval (S f) pol c t (COr a b) = eval f pol c t a || eval f pol c t b) /\
+  (forall a, eval (S f) pol c t (CNot a) = negb (eval f pol c t a)) /\
+  (forall r, eval (S f) pol c t (CRole r) = existsb (fun x => String.eqb (lower x) (lower r)) (c_roles c)) /\
+  (forall n, eval (S f) pol c t (CRule n) =
+             match plookup pol n with Some k => eval f pol c t k | None => false end) /\
+  (forall k m, eval (S f) pol c t (CCred k m) = String.eqb (match_text t m) (cred_text c k)).
+Proof. intros. repeat split. Qed.
+
+(* the decision depends on the caller only through what the expressions read:
+   "!" denies every caller, administrators included; "@" allows every caller *)
+Lemma bang_denies_everyone : forall pol c t r,
+  plookup pol r = Some CFalse -> authorize pol c t r = false.
+Proof. intros pol c t r H. unfold authorize. rewrite H. reflexivity. Qed.
+
+Lemma at_allows_everyone : forall pol c t r,
+  plookup pol r = Some CTrue -> authorize pol c t r = true.
+Proof. intros pol c t r H. unfold authorize. rewrite H. reflexivity. Qed.
+
+Lemma override_lookup : forall pol n k, plookup (override pol n k) n = Some k.
+Proof. intros. unfold override. simpl. rewrite String.eqb_refl. reflexivity. Qed.
+
+Lemma override_other : forall pol n k n', n <> n' -> plookup (override pol n k) n' = plookup pol n'.
+Proof.
+  intros pol n k n' H. unfold override. simpl.
+  destruct (String.eqb n n') eqn:E; [apply String.eqb_eq in E; contradiction | reflexivity].
+Qed.
+
+(* a role-specific rule denies every caller without that role, whatever is_admin says *)
+Lemma role_rule_denies : forall pol c t r role,
+  plookup pol r = Some (CRole role) ->
+  (forall x, In x (c_roles c) -> lower x <> lower role) ->
+  authorize pol c t r = false.
+Proof.
+  intros pol c t r role H Hn. unfold authorize. rewrite H. unfold policy_fuel.
+  change (existsb (fun x => String.eqb (lower x) (lower role)) (c_roles c) = false).
+  apply not_true_is_false. intro E. apply existsb_exists in E. destruct E as (x & Hx & E).
+  apply String.eqb_eq in E. exact (Hn x Hx E).
+Qed.
+
+Lemma is_admin_rule : forall pol c t r,
+  plookup pol r = Some (CCred KIsAdmin (MLit "True")) -> authorize pol c t r = c_is_admin c.
+Proof.
+  intros pol c t r H. unfold authorize. rewrite H. unfold policy_fuel.
+  change (String.eqb "True" (if c_is_admin c then "True" else "False") = c_is_admin c).
+  destruct (c_is_admin c); reflexivity.
+Qed.
+
+(* the table theorems instantiated with the environment a policy and a caller determine *)
+Lemma policy_denied_no_effect : forall (DB : Type) m pol c holds fires (body : DB -> nat * DB) db,
+  In m methods -> ~ In (method_id m) unguarded_allowlist ->
+  exists r, first_enforce (m_effects m) = Some r /\ documented rules m r = true /\
+   (enforce_allows pol c r = false ->
+      snd (handle m (policy_env pol c holds fires) body db) = db /\
+      (forall body', handle m (policy_env pol c holds fires) body' db =
+                     handle m (policy_env pol c holds fires) body db) /\
+      (~ In (method_id m) preguarded_allowlist ->
+       fst (handle m (policy_env pol c holds fires) body db) = 403)).
+Proof.
+  intros DB m pol c holds fires body db Hin Hn.
+  destruct (denied_no_effect_table DB m (policy_env pol c holds fires) body db Hin Hn) as (r & A & B & C).
+  exists r. split; [exact A|]. split; [exact B|]. intro D. apply C. simpl. rewrite D. reflexivity.
+Qed.
+
+(* no bypass for administrators: the operator's "!" on the rule a method checks refuses an admin too *)
+Lemma admin_no_bypass : forall (DB : Type) m pol c holds fires (body : DB -> nat * DB) db,
+  In m methods -> ~ In (method_id m) unguarded_allowlist -> c_is_admin c = true ->
+  exists r, first_enforce (m_effects m) = Some r /\
+    let pol' := override pol r CFalse in
+    snd (handle m (policy_env pol' c holds fires) body db) = db /\
+    (~ In (method_id m) preguarded_allowlist ->
+     fst (handle m (policy_env pol' c holds fires) body db) = 403).
+Proof.
+  intros DB m pol c holds fires body db Hin Hn _.
+  destruct (policy_denied_no_effect DB m (override pol
+             (match first_enforce (m_effects m) with Some r => r | None => "" end) CFalse)
+             c holds fires body db Hin Hn) as (r & A & _ & C).
+  exists r. split; [exact A|]. cbv zeta. rewrite A in C.
+  assert (enforce_allows (override pol r CFalse) c r = false) as D
+    by (apply bang_denies_everyone; apply override_lookup).
+  destruct (C D) as (X & _ & Z). split; assumption.
+Qed.
+
+(* conditional rules under a policy: all_projects / publicize need their own rule for every caller *)
+Lemma policy_conditional_denied : forall (DB : Type) m pol c holds fires (body : DB -> nat * DB) db r cd,
+  In (r, cd) (conds_before_data (m_effects m)) -> holds cd = true -> enforce_allows pol c r = false ->
+  snd (handle m (policy_env pol c holds fires) body db) = db /\
+  (forall body', handle m (policy_env pol c holds fires) body' db =
+                 handle m (policy_env pol c holds fires) body db).
+Proof.
+  intros DB m pol c holds fires body db r cd Hin Hh D. unfold handle.
+  assert (blocked (m_effects m) (policy_env pol c holds fires) = true) as B.
+  { apply (cond_blocked _ _ r cd); [apply conds_in_before; exact Hin | exact Hh | simpl; rewrite D; reflexivity]. }
+  destruct (run_blocked (m_effects m) (policy_env pol c holds fires) 0 body db B) as (A & _ & C).
+  split; [exact A | exact C].
+Qed.
+
+(* the registered defaults: kind AdminOnly / AdminOrOwner is what default_policy says *)
+Definition kind_matches_default (r : rule) : bool :=
+  match r_kind r, plookup default_policy (r_name r) with
+  | AdminOnly, Some (CRule n) => String.eqb n "admin_only"
+  | AdminOrOwner, Some (CRule n) => String.eqb n "admin_or_owner"
+  | BaseRule, Some _ => true
+  | _, _ => false
+  end.
+
+Lemma defaults_consistent : forall r, In r rules -> kind_matches_default r = true.
+Proof. apply forallb_forall. vm_compute. reflexivity. Qed.
+
+Lemma eval_rule : forall f pol c t n,
+  eval (S f) pol c t (CRule n) = match plookup pol n with Some k => eval f pol c t k | None => false end.
+Proof. reflexivity. Qed.
+
+Lemma eval_cred : forall f pol c t k m,
+  eval (S f) pol c t (CCred k m) = String.eqb (match_text t m) (cred_text c k).
+Proof. reflexivity. Qed.
+
+Lemma eval_or : forall f pol c t a b,
+  eval (S f) pol c t (COr a b) = eval f pol c t a || eval f pol c t b.
+Proof. reflexivity. Qed.
+
+Lemma lookup_admin_only : plookup default_policy "admin_only" = Some (CCred KIsAdmin (MLit "True")).
+Proof. vm_compute. reflexivity. Qed.
+
+Lemma lookup_admin_or_owner : plookup default_policy "admin_or_owner" =
+  Some (COr (CCred KIsAdmin (MLit "True")) (CCred KProject MTargetProject)).
+Proof. vm_compute. reflexivity. Qed.
+
+Lemma default_admin_only : forall c t, authorize default_policy c t "admin_only" = c_is_admin c.
+Proof. intros. apply is_admin_rule. exact lookup_admin_only. Qed.
+
+Lemma default_admin_or_owner : forall c, enforce_allows default_policy c "admin_or_owner" = true.
+Proof.
+  intro c. unfold enforce_allows, authorize. rewrite lookup_admin_or_owner.
+  unfold policy_fuel. rewrite eval_or, !eval_cred. unfold own_target, match_text, cred_text, t_project.
+  rewrite String.eqb_refl. apply orb_true_r.
+Qed.
+
+Lemma default_admin_only_rule : forall c t n,
+  rule_kind rules n = Some AdminOnly -> authorize default_policy c t n = c_is_admin c.
+Proof.
+  intros c t n H. unfold rule_kind in H.
+  destruct (find_rule rules n) as [r|] eqn:F; [|discriminate]. simpl in H. injection H as K.
+  unfold find_rule in F. apply find_some in F. destruct F as [Hin E]. apply String.eqb_eq in E. subst n.
+  pose proof (defaults_consistent r Hin) as D. unfold kind_matches_default in D. rewrite K in D.
+  destruct (plookup default_policy (r_name r)) as [[]|] eqn:P; try discriminate.
+  apply String.eqb_eq in D. subst n.
+  unfold authorize. rewrite P. unfold policy_fuel. rewrite eval_rule, lookup_admin_only, eval_cred.
+  unfold match_text, cred_text. destruct (c_is_admin c); reflexivity.
+Qed.
+
+(* default policy, non-admin caller: cross-project listing and scope=public change nothing *)
+Lemma default_policy_all_projects : forall (DB : Type) m c holds fires (body : DB -> nat * DB) db,
+  In m methods -> m_all_projects m = true -> c_is_admin c = false ->
+  (forall cd, is_all_projects_cond cd = true -> holds cd = true) ->
+  snd (handle m (policy_env default_policy c holds fires) body db) = db /\
+  (forall body', handle m (policy_env default_policy c holds fires) body' db =
+                 handle m (policy_env default_policy c holds fires) body db).
+Proof.
+  intros DB m c holds fires body db Hin Hap Hna Hh.
+  destruct (all_projects_table DB m (policy_env default_policy c holds fires) body db Hin Hap)
+    as (r & Hf & [K | (cd & Hc & K & CB & Hyp)]).
+  - unfold handle.
+    assert (blocked (m_effects m) (policy_env default_policy c holds fires) = true) as B.
+    { apply (first_enforce_blocked _ _ r Hf). simpl. unfold enforce_allows.
+      rewrite (default_admin_only_rule c _ r K), Hna. reflexivity. }
+    destruct (run_blocked (m_effects m) (policy_env default_policy c holds fires) 0 body db B) as (A & _ & C).
+    split; [exact A | exact C].
+  - cbv zeta in *. apply Hyp.
+    + simpl. apply Hh. exact Hc.
+    + simpl. unfold enforce_allows. rewrite (default_admin_only_rule c _ _ K), Hna. reflexivity.
+Qed.
+
+Lemma default_policy_publicize : forall (DB : Type) m c holds fires (body : DB -> nat * DB) db,
+  In m methods -> ~ In (method_id m) unguarded_allowlist ->
+  m_takes_scope m = true -> (m_verb m = POST \/ m_verb m = PUT) ->
+  c_is_admin c = false -> holds CScopePublic = true ->
+  snd (handle m (policy_env default_policy c holds fires) body db) = db /\
+  (forall body', handle m (policy_env default_policy c holds fires) body' db =
+                 handle m (policy_env default_policy c holds fires) body db).
+Proof.
+  intros DB m c holds fires body db Hin Hn Hs Hv Hna Hh.
+  destruct (publicize_table DB m (policy_env default_policy c holds fires) body db Hin Hn Hs Hv)
+    as (r & Hf & K & CB & Hyp). cbv zeta in *. apply Hyp.
+  - exact Hh.
+  - simpl. unfold enforce_allows. rewrite (default_admin_only_rule c _ _ K), Hna. reflexivity.
+Qed.
